@@ -23,15 +23,23 @@ fn parse_decimal_exactly(s: &str) -> Option<Ratio<BigInt>> {
     };
 
     // decimal point
-    if let Some(dot_pos) = base_str.find('.') {
+    if base_str.contains('.') {
+        // the sign applies to the whole mantissa, not just to the integer digits
+        let (negative, base_str) = match base_str.strip_prefix('-') {
+            Some(rest) => (true, rest),
+            None => (false, base_str.strip_prefix('+').unwrap_or(base_str)),
+        };
+        let dot_pos = base_str.find('.')?;
         let integer_part = &base_str[..dot_pos];
         let fractional_part = &base_str[dot_pos + 1..];
         // reject "." (but "1." and ".1" are both fine)
         if integer_part.is_empty() && fractional_part.is_empty() {
             return None;
         }
-        // reject e.g. "1.-1"
-        if !fractional_part.chars().all(|c| c.is_ascii_digit()) {
+        // reject e.g. "1.-1" and "--1.5"
+        if !fractional_part.chars().all(|c| c.is_ascii_digit())
+            || !integer_part.chars().all(|c| c.is_ascii_digit())
+        {
             return None;
         }
 
@@ -47,8 +55,9 @@ fn parse_decimal_exactly(s: &str) -> Option<Ratio<BigInt>> {
         };
 
         let decimal_places = fractional_part.len();
-        let base_value =
+        let magnitude =
             integer_digits * BigInt::from(10).pow(decimal_places as u32) + fractional_digits;
+        let base_value = if negative { -magnitude } else { magnitude };
 
         Some(apply_exp10(base_value, exponent - (decimal_places as i32)))
     } else {
